@@ -44,7 +44,7 @@ func (m VMsg) String() string {
 }
 
 type C06Case struct {
-	CfgKind  string `json:"config"` // member | nonvoter | absent | empty
+	CfgKind  string `json:"config"` // member | nonvoter | absent | empty | demoted | promoted ("n" is a non-voter in all but the last)
 	Term     uint64 `json:"term"`
 	VoteTerm uint64 `json:"vote_term"`
 	VoteCand string `json:"vote_cand"`
@@ -64,15 +64,30 @@ func c06Seed(c C06Case) (Seed, []string) {
 	var cfg []string
 	switch c.CfgKind {
 	case "member":
-		cfg = []string{"r", "a", "b"}
+		cfg = []string{"r", "a", "b", "n:n"}
 	case "nonvoter":
-		cfg = []string{"r:n", "a", "b"}
+		cfg = []string{"r:n", "a", "b", "n:n"}
 	case "absent":
-		cfg = []string{"a", "b", "c"}
+		cfg = []string{"a", "b", "c", "n:n"}
+	case "demoted", "promoted":
+		// two configuration entries: the server's configuration is the later
+		// one, whether or not it knows it to be committed
+		cfg = []string{"r", "a", "b", "n"}
+		if c.CfgKind == "promoted" {
+			cfg = []string{"r", "a", "b", "n:n"}
+		}
 	}
 	s := Seed{Term: c.Term, VoteTerm: c.VoteTerm, VoteCand: c.VoteCand}
 	if cfg != nil {
 		s.Log = append(s.Log, Entry{Term: 1, Config: cfg})
+		switch c.CfgKind {
+		case "demoted":
+			cfg = []string{"r", "a", "b", "n:n"}
+			s.Log = append(s.Log, Entry{Term: 1, Config: cfg})
+		case "promoted":
+			cfg = []string{"r", "a", "b", "n"}
+			s.Log = append(s.Log, Entry{Term: 1, Config: cfg})
+		}
 		for i := 0; i < c.LogLen; i++ {
 			// (the last two entries share a term: "shorter log, same last term" is a case of its own)
 			s.Log = append(s.Log, Entry{Term: uint64(i/2 + 2), Payload: uint64(100 + i)})
@@ -152,8 +167,10 @@ func c06Run(c C06Case) c06Result {
 		lastTerm = seed.Log[n-1].Term
 	}
 	cfg := ParseConfig(nil)
-	if len(seed.Log) > 0 {
-		cfg = ParseConfig(seed.Log[0].Config)
+	for _, e := range seed.Log {
+		if e.Config != nil {
+			cfg = ParseConfig(e.Config) // the latest configuration in the log
+		}
 	}
 	isVoter := func(id string) bool {
 		for _, s := range cfg.Servers {
@@ -354,6 +371,7 @@ func c06States() []c06State {
 			}
 		}
 	}
+	out = append(out, c06State{Cfg: "demoted", LogLen: 0}, c06State{Cfg: "demoted", LogLen: 2}, c06State{Cfg: "promoted", LogLen: 2})
 	out = append(out, c06State{Cfg: "absent", LogLen: 1}, c06State{Cfg: "absent", VoteTerm: 3, VoteCand: "a", LogLen: 1}, c06State{Cfg: "empty"})
 	// the server's newest entries live only in its snapshot (log store empty after compaction)
 	out = append(out, c06State{Cfg: "member", LogLen: 2, Compact: true}, c06State{Cfg: "member", VoteTerm: 2, VoteCand: "a", LogLen: 2, Compact: true})
